@@ -107,6 +107,15 @@ out += ["", "Changes that were missed at first and what was strengthened:", "",
         "  control request on an info that never saw a successful set-up call arms a template and `setup_init` succeeds with 0 channels at 0 Hz) was missed because the C15 workload only made control requests after a successful set-up call -",
         "  narrower than the quantifier ('any sequence of control requests'). C15 now also makes control requests before the set-up call, instead of it, and after a refused three-step set-up call (which leaves the info uncleared), then calls",
         "  `vorbis_encode_setup_init`; a success there is judged like any other (channels in 1..255 and rate > 0 as requested, analysis init, header output, encode). On the unchanged tree all ~1 500 such sequences per quick run are refused.",
+        "  Second batch of round 7 (prompt added: state left by refused calls, arithmetic at the format's extremes, rarely used calls, interaction of two features, second and third occurrences; `git stash` forbidden after the first batch's",
+        "  agents swapped changes through the shared stash; two exact repeats of first-batch changes - C05, C06 - not stored): 15 of 18 reported as the checks stood. Strengthened for `C19_r7m2` (`_ov_getlap` stops collecting old audio at any",
+        "  foreign page: C19 multiplexes a foreign logical stream into the links of every 6th case - the harness's own link-end derivation had to learn to skip foreign pages too, section 13), `C10_r7m2` (a successful short read that",
+        "  leaves `errno` set is taken for a read error: in a third of the C10 schedules the source returns from successful reads with `errno == EINTR`, as a callback that retried an interrupted read does; a true end of data leaves `errno` alone),",
+        "  `C15_r7m2` (RATEMANAGE2_SET accepts a negative damping while no average is set, the deprecated RATEMANAGE_AVG then sets one: the manager walks off the front of the candidate array after ~0.75 s of audio): C15 has a rate-management",
+        "  stratum (a third of the three-step cases: 6-16 requests from the six rate-management codes, arguments = what GET reports or a sane draw with 0-2 fields at boundary values, and about a second of audio when management ends up",
+        "  active). The exact combination is still rare: the quick tier does not reach it (0 of 12 000 cases), the thorough tier reports it as `crash:SEGV:vorbis_bitrate_addblock`.",
+        "  `C03_r5m2` (round 5, thorough-only until now) is reported by the quick tier since C03 got a phantom-tail stratum (a link whose last page overstates its length, followed by a link that opens but cannot be decoded) and seek targets",
+        "  at and around every link boundary.",
         "<!-- AUTOGEN-END -->"]
 p = os.path.join(V, 'DESIGN.md')
 s = open(p).read()
